@@ -24,13 +24,17 @@ VARIABLES st,         \* [Acct -> account record]              the live accounts
           dead,       \* RevertToSnapshot panicked
           sealed,     \* the block is finished: logs merged and published, accounts finalised
           redo,       \* the state RebuildAll derives from the published logs and the parent state
+          ghost,      \* {<<account, root>>}: trie caches holding an empty dirty entry written back by an undo
+          clean,      \* history: the sealed state of a run that executed ONLY the surviving journal entries
+          pub,        \* [Acct -> [kinds, roots]]  what the sealed block publishes (merged logs, changed roots)
+          cleanpub,   \* ... and what the block of that other run publishes
           steps
-vars == <<st, base, journal, ver, revs, nextId, saved, dead, sealed, redo, steps>>
+vars == <<st, base, journal, ver, revs, nextId, saved, dead, sealed, redo, ghost, clean, pub, cleanpub, steps>>
 
 Types == {LogType(k) : k \in UNION {KindsOf[a] : a \in Acct}}
 Init == /\ base \in BaseSet /\ st = base
         /\ journal = <<>> /\ revs = <<>> /\ nextId = 0 /\ saved = <<>> /\ dead = FALSE /\ steps = 0
-        /\ sealed = FALSE /\ redo = <<>>
+        /\ sealed = FALSE /\ redo = <<>> /\ ghost = {} /\ clean = <<>> /\ pub = <<>> /\ cleanpub = <<>>
         /\ ver = [a \in Acct |-> [t \in Types |-> 0]]
 Step == ~dead /\ ~sealed /\ steps < MaxSteps /\ steps' = steps + 1
 
@@ -70,31 +74,38 @@ Set(a, k, v) ==
   /\ ver' = [ver EXCEPT ![a][LogType(k)] = @ + 1]
   /\ journal' = Append(journal, [a |-> a, k |-> k, old |-> OldOf(st[a], k), new |-> v, n |-> ver[a][LogType(k)] + 1])
   /\ st' = [st EXCEPT ![a] = Effect(@, k, v, Z)]
-  /\ UNCHANGED <<base, revs, nextId, saved, dead, sealed, redo>>
+  /\ ghost' = GhostsAfterSet(ghost, a, k)
+  /\ UNCHANGED <<base, revs, nextId, saved, dead, sealed, redo, clean, pub, cleanpub>>
 
 Snapshot ==
   /\ Step /\ Len(revs) < MaxSnap
   /\ revs' = Append(revs, [id |-> nextId, idx |-> Len(journal)])
   /\ saved' = Append(saved, st) /\ nextId' = nextId + 1
-  /\ UNCHANGED <<st, base, journal, ver, dead, sealed, redo>>
+  /\ UNCHANGED <<st, base, journal, ver, dead, sealed, redo, ghost, clean, pub, cleanpub>>
 
 Revert(i) ==
   /\ Step /\ i \in 1..Len(revs)
   /\ IF Panics(journal, revs[i].idx, Dv)
-     THEN dead' = TRUE /\ UNCHANGED <<st, journal, revs>>
+     THEN dead' = TRUE /\ UNCHANGED <<st, journal, revs, ghost>>
      ELSE /\ st' = UndoFrom(st, journal, revs[i].idx, base, Z, Dv)
+          /\ ghost' = ghost \cup GhostsOf(journal, revs[i].idx)
           /\ journal' = SubSeq(journal, 1, revs[i].idx)
           /\ revs' = SubSeq(revs, 1, i - 1)
           /\ dead' = FALSE
-  /\ UNCHANGED <<base, ver, nextId, saved, sealed, redo>>
+  /\ UNCHANGED <<base, ver, nextId, saved, sealed, redo, clean, pub, cleanpub>>
 
-\* the block is finished (MergeChangeLogs, Finalise); a node that only has the parent state and the published logs
-\* replays them (RebuildAll)
+\* the block is finished (MergeChangeLogs, Finalise: the roots of every account that keeps a published log are
+\* recomputed, changed roots are published); a node that only has the parent state and the published logs replays
+\* them (RebuildAll, Finalise); `clean` is the block of a miner that executed the surviving entries only
 Seal ==
   /\ ~dead /\ ~sealed /\ WithSeal
   /\ sealed' = TRUE
-  /\ redo' = Redone(base, journal, Z, Dv)
-  /\ UNCHANGED <<st, base, journal, ver, revs, nextId, saved, dead, steps>>
+  /\ st' = Finalised(st, journal, Z, ghost, Dv)
+  /\ redo' = Finalised(Redone(base, journal, Z, Dv), journal, Z, {}, Dv)
+  /\ clean' = Finalised(Executed(base, journal, Z), journal, Z, {}, Dv)
+  /\ pub' = [a \in Acct |-> PubOf(st', base, journal, a, Z, Dv)]
+  /\ cleanpub' = [a \in Acct |-> PubOf(clean', base, journal, a, Z, Dv)]
+  /\ UNCHANGED <<base, journal, ver, revs, nextId, saved, dead, ghost, steps>>
 
 Next == \/ \E a \in Acct, k \in UNION {KindsOf[x] : x \in Acct} : \E v \in Dom(k) : Set(a, k, v)
         \/ Snapshot
@@ -105,7 +116,7 @@ Spec == Init /\ [][Next]_vars
 \* ---- the clauses of C07 (revert part) ----
 \* a revert restores exactly the state saved when that snapshot was taken, for any nesting: whatever revision is
 \* live, undoing the journal down to it (what Revert does) yields the copy saved for it
-UndoMatchesSaved == ~dead => \A i \in 1..Len(revs) : UndoFrom(st, journal, revs[i].idx, base, Z, Dv) = saved[revs[i].id + 1]
+UndoMatchesSaved == ~dead /\ ~sealed => \A i \in 1..Len(revs) : UndoFrom(st, journal, revs[i].idx, base, Z, Dv) = saved[revs[i].id + 1]
 \* ... and never fails
 NoPanic == ~dead
 \* revisions are well formed: ids increase, indices are monotone and within the journal
@@ -113,7 +124,13 @@ RevsOK == /\ \A i \in 1..Len(revs) : revs[i].idx <= Len(journal) /\ revs[i].id <
           /\ \A i, j \in 1..Len(revs) : i < j => revs[i].id < revs[j].id /\ revs[i].idx <= revs[j].idx
 \* a discarded transaction leaves no trace: undoing the whole journal yields the committed state
 \* (events: the journal holds the block's events; the count in the account is part of the record)
-DiscardAllIsBase == ~dead => UndoFrom(st, journal, 0, base, Z, Dv) = base
+DiscardAllIsBase == ~dead /\ ~sealed => UndoFrom(st, journal, 0, base, Z, Dv) = base
 \* ---- the clause of C07 about redo: replaying the published logs on the parent state gives the executed state
 RedoEqualsExec == sealed => redo = st
+\* ---- the clause of C07 about discarded work: whatever was snapshotted, written and reverted on the way, the sealed
+\* block - every attribute, all roots, the published logs and the changed roots - is the block of a run that executed
+\* only the surviving writes (a reverted creation must not come back when the tries are flushed)
+NoTraceOfReverted == sealed => st = clean /\ pub = cleanpub
+\* ... and what a node reads back from the saved block is the executed state (events and the self-destruct flag are
+\* not persisted); on the design this is Persisted(st) by definition, the trace specification checks it on real re-reads
 ====
